@@ -169,6 +169,33 @@ def run_scenario(scn: frozenset, style: int = 0) -> list[dict]:
     return bad
 
 
+def run_same_name(variant: int, style: int = 0) -> list[dict]:
+    """two unrelated contracts that share the NAME `A` (out/A.sol/A.json and out/A2.sol/A.json, as forge emits for
+    same-named contracts of different source files), with different contract-level annotations: each must run with its
+    own.  variant: 0 both annotated, 1 only the first, 2 only the second"""
+    j1, j2 = 8, 9
+    n1 = natspec_text(j1, style) if variant in (0, 1) else None
+    n2 = natspec_text(j2, (style + 1) % 3) if variant in (0, 2) else None
+    specs = [e2e.Spec("A", fns=[("check_f(uint256[])", ["STOP"])], natspec=n1, filename="A.sol"),
+             e2e.Spec("A", fns=[("check_k(uint256[])", ["STOP"])], natspec=n2, filename="A2.sol")]
+    with Recorder() as rec:
+        out = e2e.run_main(specs, [], None)
+    if out.exception is not None or out.main is None:
+        return [{"what": "halmos did not run", "exception": repr(out.exception), "stdout": out.stdout[-300:]}]
+    bad = []
+    for sig, j, nat in (("check_f(uint256[])", j1, n1), ("check_k(uint256[])", j2, n2)):
+        got = rec.fn.get(("A", sig))
+        if got is None:
+            bad.append({"what": "function not run", "contract": "A", "function": sig})
+            continue
+        for o in OPTIONS:
+            want = (setter_values(j)[o], SRC_OF["natspec"]) if nat else (DEFAULTS[o], 1)
+            if (got[o][0], int(got[o][1])) != want or got["attr"][o] != want[0]:
+                bad.append({"what": "same-name contract config", "contract": "A", "function": sig, "option": o,
+                            "got": [got[o][0], int(got[o][1])], "want": list(want)})
+    return bad
+
+
 def _line(stdout: str, cname: str, sig: str) -> str:
     """the result line of `sig` inside the block `Running N tests for test/<cname>.sol:<cname>`"""
     cur = None
